@@ -255,6 +255,37 @@ theorem parse_digits_run2d (r : Nat) : parseRun2d (toString r) = .ok r := by
 theorem dec_string_id (v : Nat) : (toString v).toNat? = some v := by
   simpa [toString] using Nat.toNat?_repr v
 
+/-! ### the model functions are the table-driven ones (tables are re-extracted from the source each run) -/
+
+theorem packObjidRaw_table (f : ObjF) : packObjidRaw f = packByTable objShiftTable f.vals := by
+  simp [packObjidRaw, packByTable, objShiftTable, ObjF.vals, val, List.lookup]
+
+theorem objOk_table (f : ObjF) : f.ok = okByTable objRangeTable f.vals := by
+  simp [ObjF.ok, okByTable, objRangeTable, ObjF.vals, val, List.lookup, Bool.and_assoc]
+
+theorem unpackObjid_table (v : Nat) :
+    unpackByTable objUnpackTable v = [("skyversion", (unpackObjid v).sv), ("rerun", (unpackObjid v).rerun),
+      ("run", (unpackObjid v).run), ("camcol", (unpackObjid v).camcol), ("firstfield", (unpackObjid v).ff),
+      ("frame", (unpackObjid v).field), ("id", (unpackObjid v).obj)] := by
+  simp [unpackByTable, objUnpackTable, unpackObjid]
+
+theorem packSpecRaw_table (f : SpecF) :
+    packSpecRaw f = packByTable specShiftTable (specVals f.plate f.fiber f.mjd f.run2d f.line 0) ∧
+    packSpecRaw f = packByTable specShiftTable (specVals f.plate f.fiber f.mjd f.run2d 0 f.line) := by
+  constructor <;>
+    simp [packSpecRaw, packByTable, specShiftTable, specVals, val, List.lookup, mjdOffset, Nat.or_assoc]
+
+theorem specOk_table (f : SpecF) :
+    f.ok = okByTable specRangeTable (specVals f.plate f.fiber f.mjd f.run2d f.line 0) ∧
+    f.ok = okByTable specRangeTable (specVals f.plate f.fiber f.mjd f.run2d 0 f.line) := by
+  constructor <;>
+    simp [SpecF.ok, okByTable, specRangeTable, specVals, val, List.lookup, mjdOffset, Bool.and_assoc, inR]
+
+theorem unpackSpec_table (v : Nat) :
+    unpackByTable specUnpackTable v = [("plate", (unpackSpec v).plate), ("fiber", (unpackSpec v).fiber),
+      ("mjd", (unpackSpec v).mjd), ("run2d", (unpackSpec v).run2d), ("line", (unpackSpec v).line)] := by
+  simp [unpackByTable, specUnpackTable, unpackSpec]
+
 /-! non-vacuity: the documentation's own examples meet the hypotheses -/
 example : (ObjF.mk 2 301 3704 3 0 91 146).ok = true := by decide
 example : packObjid (ObjF.mk 2 301 3704 3 0 91 146) = .ok 1237661382772195474 := by decide
